@@ -1,21 +1,22 @@
 #!/bin/bash
 # usage: try_mutant.sh <MID> <worktree> <outdir> <demo-test-name> <prop> [check.py args...]
 # 1. confirms in the scratch worktree: suite passes with the bug, demo fails with / passes without
-# 2. applies the bug to /repo, runs the property's check, reverts /repo
+# 2. runs the property's check against a throw-away clone of /repo with the bug applied
+#    (TRIPPY_REPO): /repo itself is never touched, so several trials can run side by side
 MID=$1; WT=$2; OUT=$3; DEMO=$4; PROP=$5; shift 5
 LOG=/var/tmp/vt/mutants/$MID; mkdir -p $LOG
+if [ -z "$SKIP_CONFIRM" ]; then
 cd $WT && git checkout -q -- . && git clean -fdq -e target
-git apply $OUT/patch.diff || { echo "patch does not apply"; exit 9; }
-CARGO_TARGET_DIR=$WT/target cargo test --workspace --offline -j 8 > $LOG/suite_with_bug.txt 2>&1; echo "suite_with_bug rc=$? $(grep -c 'test result: ok' $LOG/suite_with_bug.txt) ok-lines, failed: $(grep -c 'FAILED' $LOG/suite_with_bug.txt)"
-git apply $OUT/demo.diff || { echo "demo does not apply"; }
-CARGO_TARGET_DIR=$WT/target cargo test --workspace --offline -j 8 $DEMO > $LOG/demo_with_bug.txt 2>&1; echo "demo_with_bug rc=$? (expect !=0)"
+git apply $OUT/patch.diff || { echo "$MID patch does not apply"; exit 9; }
+CARGO_TARGET_DIR=$WT/target cargo test --workspace --offline -j 6 > $LOG/suite_with_bug.txt 2>&1; echo "$MID suite_with_bug rc=$? $(grep -c 'test result: ok' $LOG/suite_with_bug.txt) ok-lines, failed: $(grep -c 'FAILED' $LOG/suite_with_bug.txt)"
+git apply $OUT/demo.diff || { echo "$MID demo does not apply"; }
+CARGO_TARGET_DIR=$WT/target cargo test --workspace --offline -j 6 $DEMO > $LOG/demo_with_bug.txt 2>&1; echo "$MID demo_with_bug rc=$? (expect !=0)"
 git checkout -q -- . && git clean -fdq -e target && git apply $OUT/demo.diff
-CARGO_TARGET_DIR=$WT/target cargo test --workspace --offline -j 8 $DEMO > $LOG/demo_without_bug.txt 2>&1; echo "demo_without_bug rc=$? (expect 0) ran: $(grep -h 'test result' $LOG/demo_without_bug.txt | grep -v ' 0 passed' | head -2 | tr '\n' ' ')"
+CARGO_TARGET_DIR=$WT/target cargo test --workspace --offline -j 6 $DEMO > $LOG/demo_without_bug.txt 2>&1; echo "$MID demo_without_bug rc=$? (expect 0) ran: $(grep -h 'test result' $LOG/demo_without_bug.txt | grep -v ' 0 passed' | head -2 | tr '\n' ' ')"
 git checkout -q -- . && git clean -fdq -e target
-# --- run the check against /repo with the bug applied
-cd /repo && git status --short | grep -q . && { echo "/repo not clean"; exit 8; }
-git -C /repo apply $OUT/patch.diff
+fi
+R=/var/tmp/mut/$MID; rm -rf $R; mkdir -p $R && git clone -q /repo $R/repo && git -C $R/repo apply $OUT/patch.diff || { echo "$MID clone/apply failed"; exit 8; }
 s=$(date +%s)
-python3 /verif/check.py $PROP --no-evidence "$@" > $LOG/check.out 2> $LOG/check.err; rc=$?
-git -C /repo checkout -- .
-echo "check $PROP rc=$rc $(( $(date +%s) - s ))s"; grep -h "VIOLATION\|INCONCLUSIVE\|tier=" $LOG/check.out | cut -c1-300
+TRIPPY_REPO=$R/repo TRIPPY_VERIF_SCRATCH=/var/tmp/trippy-verif.$MID python3 /verif/check.py $PROP --no-evidence "$@" > $LOG/check.out 2> $LOG/check.err; rc=$?
+rm -rf $R
+echo "$MID check $PROP rc=$rc $(( $(date +%s) - s ))s"; grep -h "VIOLATION\|INCONCLUSIVE\|tier=" $LOG/check.out | cut -c1-300
